@@ -28,8 +28,8 @@ struct ref_attr
     std::uint8_t  svc;            // index into ref_service
     std::uint8_t  readable;
     std::uint8_t  flags;          // bit 0: characteristic without explicit UUID (UUID derived from the service UUID)
-    std::uint8_t  vlen;           // expected value (initial value for bound characteristic values)
-    std::uint8_t  value[ 40 ];
+    std::uint16_t vlen;           // expected value (initial value for bound characteristic values)
+    std::uint8_t  value[ 320 ];
 };
 
 struct ref_service
@@ -96,7 +96,7 @@ template < class Server >
 struct Client
 {
     using connection_t = typename Server::template channel_data_t< bluetoe::details::link_state >;
-    static constexpr std::size_t guard = 16, max_mtu = 247;
+    static constexpr std::size_t guard = 16, max_mtu = 512;
 
     mc::Placed< Server >       srv;
     mc::Placed< connection_t > con;
